@@ -62,6 +62,12 @@ class GotranCCodePrinter(C99CodePrinter):
         # all quantities are doubles here
         return self._print(expr.args[0])
 
+    def _print_Mod(self, expr):
+        # fmod has the sign of the dividend. Mod has the sign of the divisor, in sympy and
+        # in the code of the other backends: Mod(-1.7, 2) is 0.3
+        num, den = (self._print(arg) for arg in expr.args)
+        return f"fmod(fmod({num}, {den}) + {den}, {den})"
+
     def _print_Abs(self, expr):
         # sympy prints the integer function abs() for arguments it knows to be integer valued
         # (e.g. floor(x)), but all quantities are doubles here (and <stdlib.h> is not included)
